@@ -47,9 +47,10 @@ def random_spec(seed):
     inter = [v for v in nodes if v not in leaves]
     vals = []
     nunknown_vals = ['zz_unknown', 'yy_unknown'] if rng.random() < 0.25 else []
+    with_nan = rng.random() < 0.5
     for _ in range(n):
         r = rng.random()
-        if r < 0.08:
+        if r < 0.08 and with_nan:
             vals.append(None)
         elif r < 0.14 and inter:
             vals.append(rng.choice(inter))        # an intermediate name observed directly
